@@ -513,10 +513,10 @@ def linear(x:Tensor, weight:Tensor, bias:Tensor=None):
     def backward():
         grad_output = out.grad
         if out.device == Device.CPU:
+            # x may carry extra leading batch dimensions: the matmul kernel sums them out for the weight
+            x_grad, weight_grad = cpu_ops.matmul_backward(grad_output.data, x.data, weight.data.T)
             if bias:
-                bias_grad, x_grad, weight_grad = cpu_ops.addmm_backward(grad_output.data, bias.data, x.data, weight.data.T)
-            else:
-                x_grad, weight_grad = cpu_ops.matmul_backward(grad_output.data, x.data, weight.data.T)
+                bias_grad = cpu_ops.unbroadcast(grad_output.data, bias.shape)
         else:
             raise RuntimeError(f"{out.device} not supported")
         
